@@ -711,6 +711,15 @@ static int PolicyVerificationResult_create(KSI_PolicyVerificationResult **result
 		goto cleanup;
 	}
 
+	tmp->ref = 1;
+	tmp->ruleResults = NULL;
+	tmp->policyResults = NULL;
+
+	res = KSI_RuleVerificationResult_init(&tmp->finalResult);
+	if (res != KSI_OK) {
+		goto cleanup;
+	}
+
 	res = KSI_RuleVerificationResultList_new(&tmp->ruleResults);
 	if (res != KSI_OK) {
 		goto cleanup;
@@ -721,12 +730,6 @@ static int PolicyVerificationResult_create(KSI_PolicyVerificationResult **result
 		goto cleanup;
 	}
 
-	res = KSI_RuleVerificationResult_init(&tmp->finalResult);
-	if (res != KSI_OK) {
-		goto cleanup;
-	}
-
-	tmp->ref = 1;
 	*result = tmp;
 	tmp = NULL;
 	res = KSI_OK;
